@@ -90,11 +90,35 @@ HOME_FILES = {
     'three-lines.txt': 'a1\nb2\nc3\n',
     'home-dir/x.txt': 'x\n',
     'home-dir/sub/y.txt': 'y\n',
+    'home-dir/prog2.py': 'import sys\n',
     'prog.py': 'import sys\n',
 }
 
 
-def run_cli(text: str, extra_args=()):
+_HANDLING_SETUP = []
+
+
+def _execute_after_argument_parsing(mp, path: str, case_dir: str, output) -> int:
+    """What MainProgram.execute([FILE]) does once its command line is parsed (argparse is a quarter of the cost of a run
+    under symbolic execution and has nothing to do with the text of the test case): the settings object that
+    argument_parsing.parse builds for a plain `exactly FILE` is built directly; the handling setup in it is the one
+    the real argument parser produced (obtained once per process).  `selftest` compares both entries."""
+    import pathlib
+    from exactly_lib.cli.definitions import common_cli_options
+    from exactly_lib.cli.program_modes.test_case import argument_parsing
+    from exactly_lib.common.process_result_reporter import Environment
+    from exactly_lib.processing.standalone.settings import TestCaseExecutionSettings, ReportingOption
+    if not _HANDLING_SETUP:
+        from exactly_lib.cli_default import default_main_program_setup as d
+        parsed = argument_parsing.parse(d.test_case_handling_setup.setup(), _resolve, [path], common_cli_options.COMMAND_DESCRIPTIONS)
+        _HANDLING_SETUP.append(parsed.handling_setup)
+    settings = TestCaseExecutionSettings(pathlib.Path(path), pathlib.Path(case_dir).resolve(), ReportingOption.STATUS_CODE,
+                                         _HANDLING_SETUP[0], sandbox_root_dir_resolver=_resolve,
+                                         run_as_part_of_explicit_suite=None)
+    return mp.execute_test_case(settings).report(Environment.new_with_color_if_supported_by_terminal(output))
+
+
+def run_cli(text: str, extra_args=(), through_argument_parser: bool = False):
     """Runs `exactly [extra_args] FILE` where FILE holds `text`.  Returns what is observable."""
     from vsym import scratch
     from exactly_lib.util.file_utils.std import StdOutputFiles
@@ -129,7 +153,10 @@ def run_cli(text: str, extra_args=()):
     cwd = os.getcwd()
     exc = None
     try:
-        rc = mp.execute(list(extra_args) + [path], StdOutputFiles(out, err))
+        if through_argument_parser or extra_args:
+            rc = mp.execute(list(extra_args) + [path], StdOutputFiles(out, err))
+        else:
+            rc = _execute_after_argument_parsing(mp, path, case_dir, StdOutputFiles(out, err))
     except Exception as e:  # noqa  (an escaping exception is itself an observation)
         rc, exc = None, e
     except SystemExit as e:  # the program must return its exit code, not leave through sys.exit
